@@ -1,10 +1,326 @@
-(* Proofs about CV/CVModel.v (babylon::ConcurrentVector + RetireList). *)
-From Coq Require Import ZArith List Bool Lia.
-Require Import Verif.Gen.Gen_cvector Verif.Conc.Machine Verif.CV.CVModel.
+(* Proofs about CV/CVModel.v (babylon::ConcurrentVector + RetireList).  Statements are fixed by Properties_C04.v. *)
+From Coq Require Import ZArith List Bool Lia Arith PeanoNat.
+Require Import Verif.Base.Atomics Verif.Gen.Gen_cvector Verif.Conc.Machine Verif.CV.CVModel.
 Import ListNotations.
 Local Open Scope Z_scope.
 
+(* ---- vocabulary used by the statements ---- *)
+Definition Reach (b t0 : Z) (progs : list (list op)) (s : st) : Prop := reachable st step (init b t0 progs) s.
+Definition live (s : st) : list nat := tblocks (table s (cur s)).          (* blocks of the published table *)
+Definition prefix {A} (a b : list A) : Prop := exists r, b = a ++ r.
+(* where index i lives according to the current table *)
+Definition slot (s : st) (i : Z) : option elem := read_elem s (live s) i.
+Definition op_index (o : op) : option Z :=
+  match o with OEnsure i | OIndex i | OSnapGet i => Some i | _ => None end.
+Definition published (ti : tinfo) : Prop := match tst ti with TSpec _ => False | _ => True end.
+
+(* memory-order obligations on the regenerated site tables: publication of a table / of a retire head is a
+   release (acq_rel CAS), every read of _block_table and _head that is followed by a dereference is an acquire *)
+Definition orders_ok : bool :=
+  match sites_get_table, sites_get_table_slow, sites_snapshot, sites_retire, sites_gc with
+  | [(KLoad, o_gt, _)], [(KCasS, o_cas_s, o_cas_f)], [(KLoad, o_snap, _)],
+    [(KLoad, o_rl, _); (KCasS, o_rs, _); (KCasW, o_rw, _)], [(KLoad, o_gl, _); (KCasS, o_gs, _)] =>
+    has_acquire o_gt && has_release o_cas_s && has_acquire o_cas_s && has_acquire o_cas_f && has_acquire o_snap &&
+    has_acquire o_rl && has_release o_rs && has_acquire o_rs && has_release o_rw && has_acquire o_rw &&
+    has_acquire o_gl && has_acquire o_gs
+  | _, _, _, _, _ => false
+  end.
+
+(* ======================================================================================== *)
+(* The generated formulas, restated (each proof breaks if the C++ expression changes)       *)
+(* ======================================================================================== *)
 Lemma cv_gen_ranges : forall bn e, copy_bytes bn / 8 = bn /\ create_lo bn e = bn /\ create_hi bn e = e /\
   delete_lo bn e = bn /\ delete_hi bn e = e /\ new_table_size bn e = e.
-Proof. intros. unfold copy_bytes, create_lo, create_hi, delete_lo, delete_hi, new_table_size. repeat split; try reflexivity.
-  rewrite Z.mul_comm. apply Z.div_mul. lia. Qed.
+Proof.
+  intros. unfold copy_bytes, create_lo, create_hi, delete_lo, delete_hi, new_table_size.
+  repeat split; try reflexivity. apply Z.div_mul. lia.
+Qed.
+Lemma cv_table_qualified : forall n e, table_qualified n e = true <-> e <= n.
+Proof. intros. unfold table_qualified. rewrite Z.geb_le. reflexivity. Qed.
+Lemma cv_loser_done : forall n e, loser_done n e = true <-> e <= n.
+Proof. intros. unfold loser_done. rewrite Z.geb_le. reflexivity. Qed.
+Lemma cv_ensure_expect : forall bi, ensure_expect bi = bi + 1.
+Proof. reflexivity. Qed.
+Lemma cv_orders_ok : orders_ok = true.
+Proof. vm_compute. reflexivity. Qed.
+Lemma cv_ts_bits : ts_bits = 16 /\ ts_of_head_bits = 16 /\ expire_arg_bits = 16.
+Proof. repeat split; reflexivity. Qed.
+Lemma cv_gc_new_head : gc_new_head = 0.
+Proof. reflexivity. Qed.
+Lemma cv_destroy_loop : forall n, destroy_loop_hi n = n.
+Proof. reflexivity. Qed.
+Lemma cv_elem_loops : forall n, ctor_loop_hi n = n /\ dtor_loop_hi n = n.
+Proof. intro n. split; reflexivity. Qed.
+
+Lemma cv_current_unit : forall c, current_unit c = c / 64.
+Proof. intro c. unfold current_unit. rewrite Z.shiftr_div_pow2 by lia. reflexivity. Qed.
+Lemma current_unit_mono : forall a b, a <= b -> current_unit a <= current_unit b.
+Proof. intros. rewrite !cv_current_unit. apply Z.div_le_mono; lia. Qed.
+Lemma current_unit_nonneg : forall a, 0 <= a -> 0 <= current_unit a.
+Proof. intros. rewrite cv_current_unit. apply Z.div_pos; lia. Qed.
+
+(* tagged pointer: the stamp survives packing (48-bit pointers) *)
+Lemma cv_head_packing : forall p ts, 0 <= p < 2 ^ 48 -> 0 <= ts ->
+  ts_of_head (make_head p ts) = ts /\ node_of_head (make_head p ts) = p.
+Proof.
+  intros p ts Hp Hts. unfold ts_of_head, node_of_head, make_head.
+  rewrite (Z.mod_small p (2 ^ 64)) by lia. split.
+  - rewrite Z.shiftr_lor, Z.shiftr_shiftl_l, Z.sub_diag, Z.shiftl_0_r by lia.
+    rewrite (Z.shiftr_div_pow2 p 48) by lia. rewrite Z.div_small by lia. apply Z.lor_0_r.
+  - change 281474976710655 with (Z.ones 48). rewrite Z.land_lor_distr_l.
+    rewrite !Z.land_ones by lia. rewrite Z.shiftl_mul_pow2 by lia. rewrite Z.mod_mul by lia.
+    rewrite Z.mod_small by lia. reflexivity.
+Qed.
+Lemma node_addr_range : forall k, 0 <= node_addr k < 2 ^ 48.
+Proof. intro k. unfold node_addr. pose proof (Z.mod_pos_bound ((Z.of_nat k + 1) * 16) (2 ^ 47)). lia. Qed.
+Lemma stamp_at_range : forall c, 0 <= stamp_at c < 2 ^ 16.
+Proof. intro c. unfold stamp_at. change ts_bits with 16. apply Z.mod_pos_bound. lia. Qed.
+Lemma ts_of_new_head : forall k c, ts_of_head (make_head (node_addr k) (stamp_at c)) = stamp_at c.
+Proof. intros. apply cv_head_packing. apply node_addr_range. apply stamp_at_range. Qed.
+
+(* expire, 16-bit wrap included: if the stamp in the head is U (mod 2^16) for some unit U that is not in the
+   future, `expire` implies that at least two whole units have passed since U; wrap can only hide an expiry *)
+Lemma cv_expire_sound : forall hw c U, 0 <= U <= current_unit c -> ts_of_head hw = U mod 2 ^ 16 ->
+  expire hw (stamp_at c) = true -> U + 2 <= current_unit c.
+Proof.
+  intros hw c U HU Hts He. unfold expire, stamp_at in He. change ts_bits with 16 in He. rewrite Hts in He.
+  rewrite <- Zminus_mod in He. apply Z.gtb_lt in He.
+  destruct (Z_lt_le_dec (current_unit c - U) 2) as [Hlt|]; [|lia].
+  rewrite Z.mod_small in He by lia. lia.
+Qed.
+Lemma cv_expire_wrap_only_delays : forall hw c U, 0 <= U <= current_unit c -> ts_of_head hw = U mod 2 ^ 16 ->
+  current_unit c - U < 2 ^ 16 -> (expire hw (stamp_at c) = true <-> U + 2 <= current_unit c).
+Proof.
+  intros hw c U HU Hts Hlt. split; [apply cv_expire_sound; assumption|]. intro H2.
+  unfold expire, stamp_at. change ts_bits with 16. rewrite Hts. rewrite <- Zminus_mod.
+  rewrite Z.mod_small by lia. apply Z.gtb_lt. lia.
+Qed.
+Lemma units_apart : forall r c U, current_unit r <= U -> U + 2 <= current_unit c -> c - r > 64.
+Proof.
+  intros r c U H1 H2. rewrite cv_current_unit in *.
+  pose proof (Z.mul_div_le c 64). pose proof (Z.mul_succ_div_gt r 64). lia.
+Qed.
+
+(* static and dynamic block arithmetic agree for BLOCK_SIZE = 2^bits *)
+Lemma cv_static_dynamic_agree : forall i b, 0 <= b ->
+  sta_block_index i b = dyn_block_index i b /\
+  sta_block_offset i (2 ^ b) = dyn_block_offset i (mask_of b) /\ sta_block_mask (2 ^ b) = mask_of b /\
+  dyn_block_size (mask_of b) = 2 ^ b.
+Proof.
+  intros i b Hb. unfold sta_block_index, dyn_block_index, sta_block_offset, dyn_block_offset, sta_block_mask, mask_of,
+    dyn_block_size. rewrite Z.ones_equiv. repeat split; try reflexivity; lia.
+Qed.
+Lemma cv_index_split : forall i b, 0 <= b -> 0 <= i ->
+  i = dyn_block_index i b * 2 ^ b + dyn_block_offset i (mask_of b) /\ 0 <= dyn_block_offset i (mask_of b) < 2 ^ b.
+Proof.
+  intros i b Hb Hi. unfold dyn_block_index, dyn_block_offset, mask_of.
+  rewrite Z.shiftr_div_pow2, Z.land_ones by lia.
+  pose proof (Z.div_mod i (2 ^ b)). pose proof (Z.mod_pos_bound i (2 ^ b)).
+  assert (0 < 2 ^ b) by (apply Z.pow_pos_nonneg; lia). split; [|lia]. rewrite Z.mul_comm. apply H. lia.
+Qed.
+
+(* ======================================================================================== *)
+(* Lists                                                                                    *)
+(* ======================================================================================== *)
+Lemma nth_error_set_nth : forall A (l : list A) n x m,
+  nth_error (set_nth n x l) m = match nth_error l m with None => None | Some y => Some (if Nat.eqb n m then x else y) end.
+Proof.
+  induction l as [|a l IH]; intros n x m.
+  - destruct n, m; reflexivity.
+  - destruct n, m; cbn; try reflexivity.
+    + destruct (nth_error l m); reflexivity.
+    + apply IH.
+Qed.
+Lemma length_set_nth : forall A (l : list A) n x, length (set_nth n x l) = length l.
+Proof. induction l; intros [|n] x; cbn; auto. Qed.
+Lemma table_nth : forall s k ti, nth_error (tables s) k = Some ti -> table s k = ti.
+Proof. intros. unfold table. apply nth_error_nth. assumption. Qed.
+Lemma prefix_refl : forall A (l : list A), prefix l l.
+Proof. intros. exists []. symmetry. apply app_nil_r. Qed.
+Lemma prefix_trans : forall A (a b c : list A), prefix a b -> prefix b c -> prefix a c.
+Proof. intros A a b c [r1 ->] [r2 ->]. exists (r1 ++ r2). symmetry. apply app_assoc. Qed.
+Lemma prefix_nth : forall A (a b : list A) n x, prefix a b -> nth_error a n = Some x -> nth_error b n = Some x.
+Proof. intros A a b n x [r ->] H. rewrite nth_error_app1; [assumption|]. apply nth_error_Some. congruence. Qed.
+
+Lemma nth_error_free_table : forall tb k c m,
+  nth_error (free_table tb k c) m =
+  match nth_error tb m with
+  | None => None
+  | Some y => Some (if Nat.eqb k m then (if Nat.eqb k 0 then set_tst y TFreed else free_tinfo y c) else y)
+  end.
+Proof.
+  intros. unfold free_table. destruct (nth_error tb k) eqn:E.
+  - rewrite nth_error_set_nth. destruct (nth_error tb m) eqn:E2; [|reflexivity].
+    destruct (Nat.eqb_spec k m); [|reflexivity]. subst. rewrite E in E2. inversion E2; subst. reflexivity.
+  - destruct (nth_error tb m) eqn:E2; [|reflexivity]. destruct (Nat.eqb_spec k m); [|reflexivity]. subst. congruence.
+Qed.
+
+(* what delete_list does to one table *)
+Definition freed_from (c : Z) (y y' : tinfo) : Prop :=
+  tblocks y' = tblocks y /\ tsup y' = tsup y /\ tst y' = TFreed /\
+  (tfreed y' = tfreed y \/ (tfreed y = None /\ tfreed y' = Some c)).
+Lemma freed_from_one : forall c y k, freed_from c y (if Nat.eqb k 0 then set_tst y TFreed else free_tinfo y c).
+Proof.
+  intros. unfold freed_from. destruct (Nat.eqb k 0); cbn; repeat split; auto.
+  destruct (tfreed y); auto.
+Qed.
+Lemma freed_from_trans : forall c y y' y'', freed_from c y y' -> freed_from c y' y'' -> freed_from c y y''.
+Proof.
+  unfold freed_from. intros c y y' y'' (A1 & A2 & A3 & A4) (B1 & B2 & B3 & B4).
+  repeat split; try congruence. destruct A4 as [A4|[A4 A5]], B4 as [B4|[B4 B5]]; try (left; congruence); try (right; split; congruence).
+Qed.
+Lemma nth_error_free_tables : forall ks tb c m,
+  match nth_error tb m with
+  | None => nth_error (free_tables tb ks c) m = None
+  | Some y => exists y', nth_error (free_tables tb ks c) m = Some y' /\
+                         ((~ In m ks /\ y' = y) \/ (In m ks /\ freed_from c y y'))
+  end.
+Proof.
+  induction ks as [|k ks IH]; intros tb c m.
+  - cbn. destruct (nth_error tb m); [|reflexivity]. eexists; split; [reflexivity|]. left. auto.
+  - cbn [free_tables fold_left]. specialize (IH (free_table tb k c) c m). unfold free_tables in IH.
+    rewrite nth_error_free_table in IH. destruct (nth_error tb m) as [y|]; [|assumption].
+    destruct IH as (y' & E & H). exists y'. split; [assumption|].
+    destruct (Nat.eqb_spec k m) as [->|Hne].
+    + right. split; [left; reflexivity|]. destruct H as [[_ ->]|[_ H]].
+      * apply freed_from_one.
+      * eapply freed_from_trans; [apply freed_from_one|exact H].
+    + destruct H as [[H1 ->]|[H1 H2]].
+      * left. split; [|reflexivity]. intros [?|?]; auto.
+      * right. split; [right; assumption|assumption].
+Qed.
+Lemma length_free_table : forall tb k c, length (free_table tb k c) = length tb.
+Proof. intros. unfold free_table. destruct (nth_error tb k); [apply length_set_nth|reflexivity]. Qed.
+Lemma length_free_tables : forall ks tb c, length (free_tables tb ks c) = length tb.
+Proof. induction ks; intros; cbn; [reflexivity|]. unfold free_tables in IHks. rewrite IHks. apply length_free_table. Qed.
+
+Lemma nat_list_eqb_eq : forall a b, nat_list_eqb a b = true -> a = b.
+Proof.
+  induction a as [|x a IH]; destruct b as [|y b]; cbn; intros H; try discriminate; [reflexivity|].
+  apply andb_prop in H. destruct H as [H1 H2]. apply Nat.eqb_eq in H1. f_equal; auto.
+Qed.
+Lemma head_is_true : forall s hw hn, head_is s hw hn = true -> hword s = hw /\ hnodes s = hn.
+Proof. intros s hw hn H. unfold head_is in H. apply andb_prop in H. destruct H as [H1 H2]. apply Z.eqb_eq in H1. apply nat_list_eqb_eq in H2. auto. Qed.
+
+(* ======================================================================================== *)
+(* The step function as a relation (one constructor per branch)                             *)
+(* ======================================================================================== *)
+Definition grows (o : op) : Prop := match o with OEnsure _ | OReserve _ | OForEach _ _ => True | _ => False end.
+
+Inductive Step (s : st) (t : nat) (th : thread) : st -> Prop :=
+| St_fast : forall o e, tpc th = Idle -> cur_op th = Some o -> expect_of s o = Some e ->
+    table_qualified (tsize (table s (cur s))) e = true ->
+    Step s t th (upd_thread s t (finish_op th (complete s o (cur s))))
+| St_index : forall i, tpc th = Idle -> cur_op th = Some (OIndex i) ->
+    Step s t th (upd_thread s t (finish_op th (if is_freed (table s (cur s)) then RUaf
+                                               else RElem (read_elem s (tblocks (table s (cur s))) i))))
+| St_size : tpc th = Idle -> cur_op th = Some OSize ->
+    Step s t th (upd_thread s t (finish_op th (RSize (snapshot_size (tsize (table s (cur s))) (bits s)))))
+| St_snap : tpc th = Idle -> cur_op th = Some OSnap ->
+    Step s t th (upd_thread s t (finish_op (set_snap th (Some (cur s, clock s))) RUnit))
+| St_snapget_none : forall i, tpc th = Idle -> cur_op th = Some (OSnapGet i) -> snap th = None ->
+    Step s t th (upd_thread s t (finish_op th (RElem None)))
+| St_snapget_uaf : forall i k taken, tpc th = Idle -> cur_op th = Some (OSnapGet i) -> snap th = Some (k, taken) ->
+    is_freed (table s k) = true ->
+    Step s t th (upd_thread (with_uaf s ((k, taken, clock s) :: uaf s)) t (finish_op th RUaf))
+| St_snapget : forall i k taken, tpc th = Idle -> cur_op th = Some (OSnapGet i) -> snap th = Some (k, taken) ->
+    is_freed (table s k) = false ->
+    Step s t th (upd_thread s t (finish_op th (RElem (read_elem s (tblocks (table s k)) i))))
+| St_gc_no : tpc th = Idle -> cur_op th = Some OGc -> expire (hword s) (stamp_at (clock s)) = false ->
+    Step s t th (upd_thread s t (finish_op th RUnit))
+| St_gc_begin : tpc th = Idle -> cur_op th = Some OGc -> expire (hword s) (stamp_at (clock s)) = true ->
+    Step s t th (upd_thread s t (goto th (GcCas (hword s) (hnodes s) (clock s))))
+| St_adv : forall d, tpc th = Idle -> cur_op th = Some (OAdv d) ->
+    Step s t th (upd_thread (with_clock s (clock s + Z.max 0 d)) t (finish_op th RUnit))
+| St_prepare : forall o e, tpc th = Idle -> cur_op th = Some o -> expect_of s o = Some e ->
+    table_qualified (tsize (table s (cur s))) e = false ->
+    Step s t th (prepare s t th (cur s) (length (tables s)) true e)
+| St_cas_win : forall bt nt bn e, tpc th = SlowCas bt nt bn e -> cur s = bt ->
+    Step s t th (upd_thread (with_mem s nt
+        (set_nth nt (set_tst (table s nt) TCur) (set_nth bt (supersede (table s bt) t (clock s)) (tables s)))
+        (bctor s) (bdtor s) (mark_all (bst s) (skipn (length (tblocks (table s bt))) (tblocks (table s nt))) BLive))
+      t (goto th (RetLoad bt nt)))
+| St_cas_lose_done : forall bt nt bn e, tpc th = SlowCas bt nt bn e -> cur s <> bt ->
+    loser_done (tsize (table s (cur s))) e = true ->
+    let dead := slice (tblocks (table s nt)) (delete_lo bn e) (delete_hi bn e) in
+    let s1 := with_mem s (cur s) (tables s) (bctor s) (bump_all (bdtor s) dead) (mark_all (bst s) dead BDead) in
+    let s2 := with_mem s1 (cur s1) (free_table (tables s1) nt (clock s)) (bctor s1) (bdtor s1) (bst s1) in
+    Step s t th (upd_thread s2 t (finish_op th (complete s2 (the_op th) (cur s))))
+| St_cas_lose_retry : forall bt nt bn e, tpc th = SlowCas bt nt bn e -> cur s <> bt ->
+    loser_done (tsize (table s (cur s))) e = false ->
+    let dead := slice (tblocks (table s nt)) (delete_lo bn e) (delete_hi bn e) in
+    let s1 := with_mem s (cur s) (tables s) (bctor s) (bump_all (bdtor s) dead) (mark_all (bst s) dead BDead) in
+    Step s t th (prepare s1 t th (cur s) nt false e)
+| St_ret_load : forall old nt, tpc th = RetLoad old nt ->
+    let c0 := clock s in
+    let neww := make_head (node_addr old) (stamp_at c0) in
+    Step s t th (upd_thread s t (goto th (if expire (hword s) (stamp_at c0)
+                                          then RetStrong old nt (hword s) (hnodes s) neww c0 c0
+                                          else RetWeak old nt (hword s) (hnodes s) neww c0 c0)))
+| St_strong_win : forall old nt hw hn neww c0 hclk, tpc th = RetStrong old nt hw hn neww c0 hclk ->
+    hword s = hw -> hnodes s = hn ->
+    let s1 := with_head s neww [old] (stale s) in
+    let s2 := with_mem s1 (cur s1) (free_tables (set_nth old (set_tst (table s old) TListed) (tables s1)) hn (clock s))
+                       (bctor s1) (bdtor s1) (bst s1) in
+    Step s t th (upd_thread s2 t (finish_op th (complete s2 (the_op th) nt)))
+| St_strong_lose : forall old nt hw hn neww c0 hclk, tpc th = RetStrong old nt hw hn neww c0 hclk ->
+    Step s t th (upd_thread s t (goto th (RetWeak old nt (hword s) (hnodes s) neww c0 (clock s))))
+| St_weak_win : forall old nt hw hn neww c0 hclk, tpc th = RetWeak old nt hw hn neww c0 hclk ->
+    hword s = hw -> hnodes s = hn ->
+    let s1 := with_head s neww (old :: hn) (stale s || (current_unit c0 <? current_unit hclk)) in
+    let s2 := with_mem s1 (cur s1) (set_nth old (set_tst (table s old) TListed) (tables s1)) (bctor s1) (bdtor s1) (bst s1) in
+    Step s t th (upd_thread s2 t (finish_op th (complete s2 (the_op th) nt)))
+| St_weak_lose : forall old nt hw hn neww c0 hclk, tpc th = RetWeak old nt hw hn neww c0 hclk ->
+    Step s t th (upd_thread s t (goto th (RetWeak old nt (hword s) (hnodes s) neww c0 (clock s))))
+| St_gc_win : forall hw hn c1, tpc th = GcCas hw hn c1 -> hword s = hw -> hnodes s = hn ->
+    let s1 := with_head s gc_new_head [] (stale s) in
+    let s2 := with_mem s1 (cur s1) (free_tables (tables s1) hn (clock s)) (bctor s1) (bdtor s1) (bst s1) in
+    Step s t th (upd_thread s2 t (finish_op th RUnit))
+| St_gc_lose : forall hw hn c1, tpc th = GcCas hw hn c1 ->
+    Step s t th (upd_thread s t (finish_op th RUnit)).
+
+Lemma step_grow : forall s t th o e, tpc th = Idle -> cur_op th = Some o -> expect_of s o = Some e ->
+  Step s t th (grow s t th o e).
+Proof.
+  intros. unfold grow. destruct (table_qualified _ _) eqn:Q; [eapply St_fast|eapply St_prepare]; eauto.
+Qed.
+
+Lemma step_Step : forall s t s', step s t = Some s' ->
+  exists th, nth_error (threads s) t = Some th /\ Step s t th s'.
+Proof.
+  intros s t s' H. unfold step in H. destruct (nth_error (threads s) t) as [th|] eqn:Eth; [|discriminate].
+  exists th. split; [reflexivity|]. unfold step_thread in H.
+  destruct (tpc th) eqn:Epc.
+  - destruct (cur_op th) as [o|] eqn:Eo; [|discriminate].
+    destruct o; cbn [expect_of] in H.
+    + injection H as <-. apply step_grow; auto.
+    + injection H as <-. apply step_grow; auto.
+    + inversion H; subst. apply St_index; assumption.
+    + inversion H; subst. apply St_size; assumption.
+    + inversion H; subst. apply St_snap; assumption.
+    + destruct (snap th) as [[k taken]|] eqn:Es.
+      * destruct (is_freed (table s k)) eqn:Ef; inversion H; subst.
+        -- eapply St_snapget_uaf; eauto.
+        -- eapply St_snapget; eauto.
+      * inversion H; subst. eapply St_snapget_none; eauto.
+    + injection H as <-. apply step_grow; auto.
+    + destruct (expire _ _) eqn:Ee; inversion H; subst; [apply St_gc_begin|apply St_gc_no]; assumption.
+    + inversion H; subst. apply St_adv; assumption.
+  - destruct (Nat.eqb_spec (cur s) bt) as [Ec|Ec].
+    + inversion H; subst. eapply St_cas_win; eauto.
+    + cbv zeta in H. cbn [cur tables with_mem] in H.
+      destruct (loser_done _ _) eqn:El; inversion H; subst.
+      * eapply St_cas_lose_done; eauto.
+      * eapply St_cas_lose_retry; eauto.
+  - cbv zeta in H. pose proof (St_ret_load s t th old nt Epc) as P. cbv zeta in P.
+    destruct (expire _ _); inversion H; subst; exact P.
+  - destruct (head_is s hw hn) eqn:Eh.
+    + apply head_is_true in Eh. destruct Eh. inversion H; subst. eapply St_strong_win; eauto.
+    + inversion H; subst. eapply St_strong_lose; eauto.
+  - destruct (head_is s hw hn) eqn:Eh.
+    + apply head_is_true in Eh. destruct Eh. inversion H; subst. eapply St_weak_win; eauto.
+    + inversion H; subst. eapply St_weak_lose; eauto.
+  - destruct (head_is s hw hn) eqn:Eh.
+    + apply head_is_true in Eh. destruct Eh. inversion H; subst. eapply St_gc_win; eauto.
+    + inversion H; subst. eapply St_gc_lose; eauto.
+Qed.
